@@ -255,7 +255,9 @@ static std::string op_mt(Tokens& tk) {
   std::ostringstream out;
   try {
     for (std::size_t i = 0; i + 1 < nt; ++i) {
+      m.alog.str("");
       m.execute(st, wk, times[i], times[i + 1]);
+      out << m.alog.str();
       out << " T " << hex(times[i + 1]) << " u";
       for (std::size_t j = 0; j != n; ++j) out << " " << hex(st.u0[j]);
       out << " s";
@@ -263,7 +265,7 @@ static std::string op_mt(Tokens& tk) {
     }
     return "end period=" + std::to_string(st.period) + " sub=" + std::to_string(st.subSteps) + out.str();
   } catch (std::exception& e) {
-    return "exc:" + classify(e) + out.str();
+    return "exc:" + classify(e) + out.str() + m.alog.str();
   }
 }
 
